@@ -77,5 +77,7 @@ bool ref_sbbf_check(const uint8_t* bits, uint32_t nblocks, uint64_t hash);
 /* strict decoders: 0 ok, <0 reason code */
 int ref_snappy_decode(const uint8_t* in, size_t n, uint8_t* out, size_t cap, size_t* out_n);
 int ref_lz4_decode(const uint8_t* in, size_t n, uint8_t* out, size_t cap, size_t* out_n, bool check_end_rules);
+int ref_lz4_compress_greedy(const uint8_t* in, size_t n, ref_buf* out);      /* real matches: short distances 1..40 and hashed 4-grams */
+int ref_snappy_compress_greedy(const uint8_t* in, size_t n, ref_buf* out);
 
 #endif
